@@ -35,13 +35,13 @@ RULE = ("run-time level: every static (type in UInt/Int/Bcd/Flag/Float/enum sign
 
 def _mc(chk, sc, tier, errors):
     try:
-        res = run_tlc(os.path.join(SCALAR_DIR, "BVMC.tla"), os.path.join(SCALAR_DIR, "BVMC.cfg"), workers=4,
+        res = run_tlc(os.path.join(SCALAR_DIR, "BVMC.tla"), os.path.join(SCALAR_DIR, "BVMC.cfg"), workers=min(scalar_rt.max_procs(), 4),
                       timeout=1500, metadir=sc.sub("meta-bvmc"))
         chk.add_tlc(res, part="mc-bitvectors")
         if not res.clean:
             chk.violation("mc:bv-library", "BVMC: the bit-vector library disagrees with integer arithmetic\n" + res.error_trace_tail(40))
         res = run_tlc(os.path.join(SCALAR_DIR, "ScalarMC.tla"), os.path.join(SCALAR_DIR, "ScalarMC.cfg"),
-                      workers=6 if tier == "quick" else 12, timeout=3000, coverage=True, env={"MC_SIZE": tier},
+                      workers=min(scalar_rt.max_procs(), 6 if tier == "quick" else 12), timeout=3000, coverage=True, env={"MC_SIZE": tier},
                       metadir=sc.sub("meta-scalarmc"))
         chk.add_tlc(res, part="mc-scalar")
         if not res.clean:
@@ -70,9 +70,9 @@ def _rt(sc, tier, seed, out, errors):
 def _gen(sc, tier, seed, out, errors):
     try:
         d = sc.sub("gen")
-        ccs, sources = scalar_gen.prepare(d, tier, 6 if tier == "quick" else 48)
+        ccs, sources = scalar_gen.prepare(d, tier, 6 if tier == "quick" else 120)
         exes = scalar_gen.build(d, ccs)
-        files, total = scalar_rt.run_drivers(exes, d, tier, "R", seed)
+        files, total = scalar_rt.run_drivers(exes, d, tier, "R", seed, shard_offset=250)
         out["gen"] = dict(files=files, records=total, modules=len(sources), fields=sum(n for _, n in ccs))
     except BaseException as e:
         errors.append(e)
@@ -132,7 +132,7 @@ def run(chk, only=None):
                 files += out[lvl]["files"]
                 chk.extra[lvl] = {k: v for k, v in out[lvl].items() if k != "files"}
         if files:
-            parts_files, nrec = scalar_rt.rebalance(files, sc.sub("parts"), "part", min(NCPU, 16))
+            parts_files, nrec = scalar_rt.rebalance(files, sc.sub("parts"), "part", min(scalar_rt.max_procs(), 16))
             results, mism, summ = scalar_check.check_files(parts_files, sc.path)
             for r in results:
                 chk.add_tlc(r, part="binding")
